@@ -43,7 +43,7 @@ var profiles = map[string]Profile{
 	"malformed": {Name: "malformed", Clients: 2, Resources: 4, Stimuli: 26, Refs: true, Collections: true, Unsub: true, Calls: true, Malformed: true, Clean: true, Endgame: true},
 	"stop":      {Name: "stop", Clients: 3, Resources: 4, Stimuli: 20, Refs: true, Collections: true, Unsub: true, Calls: true, Disconnect: true, Evict: true, StopAt: true},
 	"query":     {Name: "query", Clients: 3, Resources: 3, Stimuli: 22, Unsub: true, Queries: true, Faults: true, Clean: true, Endgame: true},
-	"core":      {Name: "core", Clients: 3, Resources: 1, Stimuli: 22, Once: true, Collections: true, Denials: true, Disconnect: true, Unsub: true, Clean: true},
+	"core":      {Name: "core", Clients: 3, Resources: 1, Stimuli: 24, Once: true, Collections: true, Denials: true, Disconnect: true, Unsub: true, Tokens: true, Reaccess: true, Clean: true},
 	"resetdel":  {Name: "resetdel", Clients: 2, Resources: 3, Stimuli: 24, Unsub: true, Resets: true, Deletes: true, Evict: true, Clean: true, Endgame: true},
 	"gets":      {Name: "gets", Clients: 2, Resources: 4, Stimuli: 18, Refs: true, Collections: true, Unsub: true, Gets: true, Faults: true, Clean: true},
 }
